@@ -13,7 +13,7 @@ import z3
 from vf.pyvc.speclib import SpecLib, F_FILEDATA, F_FIND
 from vf.pyvc.world import World, Contract
 from vf.pyvc.interp import LoopSpec
-from vf.pyvc.values import VObj, VInt, VBool, VSeq, VOpt, NONE, VFunc, fresh, fresh_name, SeqI, VBox
+from vf.pyvc.values import VObj, VInt, VBool, VSeq, VOpt, NONE, VFunc, fresh, fresh_name, SeqI, VBox, sort_of
 from vf.pyvc.driver import verify_contracts
 
 MOD = "debian.arfile"
@@ -230,9 +230,6 @@ class Readlines(MemberContract):
             "lines + bio_readlines(%s, self.__cur - self.__offset) == bio_readlines(%s, %s)" % (MEM, MEM, P0),
             "self.__cur >= old(self.__cur)",
             "self.__cur <= self.__end or self.__cur == old(self.__cur)",
-            # unfolding lemma instance at the current position (valid by definition; it is an
-            # obligation of its own at establish / preserve and a hint where it is assumed)
-            "bio_readlines(%s, self.__cur - self.__offset) == bio_readlines_step(%s, self.__cur - self.__offset)" % (MEM, MEM),
         ),
         modifies=("self.__cur", "self.__fp", "self.__fp.pos"),
         decreases="self.__end - self.__cur",
@@ -261,6 +258,244 @@ class Seek(MemberContract):
         return {"offset": VInt(o), "whence": VInt(w)}
 
 
+def hdr_name(h, enc, errs):
+    """member name recorded in a 60-byte header: bytes before the first '/', blanks stripped, decoded"""
+    return h[0:16].split(b"/")[0].strip().decode(enc, errs)
+
+
+HDR = "old(fp.data)[old(fp.pos):old(fp.pos) + 60]"
+
+
+class FromFile(Contract):
+    target = MOD + ":ArMember.from_file"
+    modular = False
+    requires = ()
+    ensures = (
+        "(result is None) == (old(fp.pos) >= len(fp.data))",
+        "implies(result is not None, len(fp.data) >= old(fp.pos) + 60 and %s[58:60] == FILE_MAGIC)" % HDR,
+        "implies(result is not None, result.__name == hdr_name(%s, fs_encoding() if encoding is None else encoding, "
+        "'surrogateescape' if errors is None else errors))" % HDR,
+        "implies(result is not None, result.__mtime == int(%s[16:28]) and result.__owner == int(%s[28:34]) "
+        "and result.__group == int(%s[34:40]) and result.__fmode == %s[40:48] and result.__size == int(%s[48:58]))"
+        % (HDR, HDR, HDR, HDR, HDR),
+        "implies(result is not None, result.__offset == old(fp.pos) + 60 and result.__end == result.__offset + result.__size "
+        "and result.__cur == result.__offset and fp.pos == old(fp.pos) + 60)",
+        "implies(result is not None, result.__fname == fname)",
+        "implies(result is not None, (result.__fp is None) == bool(fname))",
+        "implies(result is None, fp.pos == old(fp.pos))",
+    )
+    raises = {
+        "OSError": ("old(fp.pos) < len(fp.data)",
+                    "len(fp.data) < old(fp.pos) + 60 or %s[58:60] != FILE_MAGIC" % HDR),
+        # a numeric header field is not a numeral
+        "ValueError": ("len(fp.data) >= old(fp.pos) + 60",
+                       "not (is_int(%s[16:28]) and is_int(%s[28:34]) and is_int(%s[34:40]) and is_int(%s[48:58]))"
+                       % (HDR, HDR, HDR, HDR)),
+    }
+    returns = ("opt", ("obj", "ArMember"))
+    modifies = ("fp.pos",)
+    raises_modifies = {"OSError": ("fp.pos",), "ValueError": ("fp.pos",)}
+
+    def __init__(self, with_fname):
+        self.with_fname = with_fname
+
+    def setup(self, ex):
+        sl = ex.world.speclib
+        D = z3.Const(fresh_name("data"), SeqI)
+        pos = z3.Int(fresh_name("fppos"))
+        ex.assume(pos >= 0)
+        fp = VObj("BinaryIO", {"data": VSeq("bytes", "int", D), "pos": VInt(pos), "closed": VBool(False)}, "fp")
+        if self.with_fname:
+            fn = fresh(("opt", "str"), "fname")
+        else:
+            fn = NONE
+        self.model_vars = [str(D), str(pos)]
+        return {"fp": fp, "fname": fn, "encoding": fresh(("opt", "str"), "encoding"), "errors": fresh(("opt", "str"), "errors")}
+
+
+class FromFileIdentity(FromFile):
+    """the one clause about object identity (not expressible for callers that keep members by value)"""
+    ensures = ("implies(result is not None and not fname, result.__fp is fp)",)
+    raises = {"OSError": (), "ValueError": ()}
+
+
+# ---- archive level: spec functions over the archive bytes d and the member index k -------------------
+
+def member_at(d, p, fname, enc, errs):
+    """the member described by the 60-byte header at position p"""
+    return mk_member(hdr_name(d[p:p + 60], enc, errs), int(d[p + 16:p + 28]), int(d[p + 28:p + 34]), int(d[p + 34:p + 40]),
+                     d[p + 40:p + 48], int(d[p + 48:p + 58]), fname, bool(fname), p + 60, p + 60 + int(d[p + 48:p + 58]), p + 60)
+
+
+def hdr_ok(d, p):
+    return (p + 60 <= len(d) and d[p + 58:p + 60] == FILE_MAGIC and is_int(d[p + 16:p + 28]) and is_int(d[p + 28:p + 34])
+            and is_int(d[p + 34:p + 40]) and is_int(d[p + 48:p + 58]) and int(d[p + 48:p + 58]) >= 0)
+
+
+def hdr_pos(d, k):
+    """position of the header of member k: after the global header, each member occupies
+    60 + size bytes, padded to an even length"""
+    if k <= 0:
+        return 8
+    return hdr_pos(d, k - 1) + 60 + int(d[hdr_pos(d, k - 1) + 48:hdr_pos(d, k - 1) + 58]) \
+        + int(d[hdr_pos(d, k - 1) + 48:hdr_pos(d, k - 1) + 58]) % 2
+
+
+def hdr_pos_step(d, k):
+    if k <= 0:
+        return 8
+    return hdr_pos(d, k - 1) + 60 + int(d[hdr_pos(d, k - 1) + 48:hdr_pos(d, k - 1) + 58]) \
+        + int(d[hdr_pos(d, k - 1) + 48:hdr_pos(d, k - 1) + 58]) % 2
+
+
+def ar_wf(d, k, n):
+    """members k .. n-1 have complete, well-formed headers and the data ends where header n would start"""
+    if k >= n:
+        return hdr_pos(d, n) >= len(d)
+    return hdr_ok(d, hdr_pos(d, k)) and ar_wf(d, k + 1, n)
+
+
+def ar_wf_step(d, k, n):
+    if k >= n:
+        return hdr_pos(d, n) >= len(d)
+    return hdr_ok(d, hdr_pos(d, k)) and ar_wf(d, k + 1, n)
+
+
+def members_spec(d, k, fname, enc, errs):
+    if k <= 0:
+        return no_members()
+    return members_spec(d, k - 1, fname, enc, errs) + [member_at(d, hdr_pos(d, k - 1), fname, enc, errs)]
+
+
+def members_spec_step(d, k, fname, enc, errs):
+    if k <= 0:
+        return no_members()
+    return members_spec(d, k - 1, fname, enc, errs) + [member_at(d, hdr_pos(d, k - 1), fname, enc, errs)]
+
+
+def dict_spec(d, k, fname, enc, errs):
+    """name -> member after k members have been indexed: later members replace earlier ones"""
+    if k <= 0:
+        return no_members_dict()
+    return dict_store(dict_spec(d, k - 1, fname, enc, errs), hdr_name(d[hdr_pos(d, k - 1):hdr_pos(d, k - 1) + 60], enc, errs),
+                      member_at(d, hdr_pos(d, k - 1), fname, enc, errs))
+
+
+def dict_spec_step(d, k, fname, enc, errs):
+    if k <= 0:
+        return no_members_dict()
+    return dict_store(dict_spec(d, k - 1, fname, enc, errs), hdr_name(d[hdr_pos(d, k - 1):hdr_pos(d, k - 1) + 60], enc, errs),
+                      member_at(d, hdr_pos(d, k - 1), fname, enc, errs))
+
+
+ARGS = "fp.data, {k}, self.__fname, self.__encoding, self.__errors"
+
+
+class CollectMembers(Contract):
+    target = MOD + ":ArFile.__collect_members"
+    modular = False
+    requires = ("fp.pos == 0", "fp.data[0:8] == GLOBAL_HEADER", "n >= 0", "ar_wf(fp.data, 0, n)",
+                "len(self.__members) == 0", "self.__members_dict == no_members_dict()")
+    ensures = ("self.__members == members_spec(%s)" % ARGS.format(k="n"),
+               "self.__members_dict == dict_spec(%s)" % ARGS.format(k="n"))
+    modifies = ("fp.pos", "self.__members", "self.__members_dict")
+    loops = {0: LoopSpec(
+        invariants=(
+            "len(self.__members) <= n",
+            "fp.pos == hdr_pos(fp.data, len(self.__members))",
+            "self.__members == members_spec(%s)" % ARGS.format(k="len(self.__members)"),
+            "self.__members_dict == dict_spec(%s)" % ARGS.format(k="len(self.__members)"),
+            "ar_wf(fp.data, len(self.__members), n)",
+            # one-step unfoldings used by the preservation proof (each is an obligation of its own)
+            "mention(hdr_pos(fp.data, len(self.__members) + 1))",
+            "mention(members_spec(%s))" % ARGS.format(k="len(self.__members) + 1"),
+            "mention(dict_spec(%s))" % ARGS.format(k="len(self.__members) + 1"),
+        ),
+        modifies=("fp.pos", "self.__members", "self.__members_dict"),
+        decreases="n - len(self.__members) + 1",
+        var_types={"newmember": ("opt", ("obj", "ArMember"))})}
+
+    def setup(self, ex):
+        D = z3.Const(fresh_name("data"), SeqI)
+        fp = VObj("BinaryIO", {"data": VSeq("bytes", "int", D), "pos": VInt(z3.Int(fresh_name("fppos"))),
+                               "closed": VBool(False)}, "fp")
+        from vf.pyvc.values import VBox as _VBox
+        members = _VBox("list", VSeq("list", ("rec", "ArMember"), z3.Const(fresh_name("members"), sort_of(("list", ("rec", "ArMember"))))), "members")
+        from vf.pyvc.values import empty_dict, DictVal
+        mdict = _VBox("dict", empty_dict("str", ("rec", "ArMember")), "members_dict")
+        d = mdict.val
+        mdict.val = DictVal(d.kty, d.vty, z3.Const(fresh_name("mdict_keys"), d.keys.sort()), z3.Const(fresh_name("mdict_vals"), d.vals.sort()))
+        me = VObj("ArFile", {"_ArFile__members": members, "_ArFile__members_dict": mdict,
+                             "_ArFile__fname": fresh(("opt", "str"), "fname"), "_ArFile__fileobj": NONE,
+                             "_ArFile__encoding": fresh("str", "encoding"), "_ArFile__errors": fresh("str", "errors")}, "self")
+        n = z3.Int(fresh_name("n"))
+        self.model_vars = [str(D), str(n)]
+        return {"self": me, "fp": fp, "n": VInt(n)}
+
+
+class GetMember(Contract):
+    target = MOD + ":ArFile.getmember"
+    modular = False
+    requires = ("name in self.__members_dict",)
+    ensures = ("result == self.__members_dict[name]",)
+    modifies = ()
+
+    def setup(self, ex):
+        me, _ = _arfile_obj(ex)
+        return {"self": me, "name": fresh("str", "name")}
+
+
+class GetMemberMissing(Contract):
+    target = MOD + ":ArFile.getmember"
+    modular = False
+    requires = ("name not in self.__members_dict",)
+    ensures = ("False",)
+    raises = {"KeyError": ("name not in self.__members_dict",)}
+    modifies = ()
+
+    def setup(self, ex):
+        me, _ = _arfile_obj(ex)
+        return {"self": me, "name": fresh("str", "name")}
+
+
+class GetMembers(Contract):
+    target = MOD + ":ArFile.getmembers"
+    modular = False
+    ensures = ("result == self.__members",)
+    modifies = ()
+
+    def setup(self, ex):
+        me, _ = _arfile_obj(ex)
+        return {"self": me}
+
+
+def _arfile_obj(ex):
+    from vf.pyvc.values import VBox as _VBox, empty_dict, DictVal
+    members = _VBox("list", VSeq("list", ("rec", "ArMember"), z3.Const(fresh_name("members"), sort_of(("list", ("rec", "ArMember"))))), "members")
+    d = empty_dict("str", ("rec", "ArMember"))
+    mdict = _VBox("dict", DictVal(d.kty, d.vty, z3.Const(fresh_name("mdict_keys"), d.keys.sort()),
+                                  z3.Const(fresh_name("mdict_vals"), d.vals.sort())), "members_dict")
+    me = VObj("ArFile", {"_ArFile__members": members, "_ArFile__members_dict": mdict,
+                         "_ArFile__fname": fresh(("opt", "str"), "fname"), "_ArFile__fileobj": NONE,
+                         "_ArFile__encoding": fresh("str", "encoding"), "_ArFile__errors": fresh("str", "errors")}, "self")
+    return me, members
+
+
+MEMBER_FIELDS = [("_ArMember__name", ("opt", "str")), ("_ArMember__mtime", ("opt", "int")), ("_ArMember__owner", ("opt", "int")),
+                 ("_ArMember__group", ("opt", "int")), ("_ArMember__fmode", ("opt", "bytes")), ("_ArMember__size", ("opt", "int")),
+                 ("_ArMember__fname", ("opt", "str")), ("_ArMember__fp", "objnone"), ("_ArMember__offset", "int"),
+                 ("_ArMember__end", "int"), ("_ArMember__cur", "int")]
+
+
+def _mk_member(ex, a, kw):
+    name, mtime, owner, group, fmode, size, fname, fpnone, off, end, cur = a
+    from vf.pyvc.values import VPy
+    return VObj("ArMember", {"_ArMember__name": name, "_ArMember__mtime": mtime, "_ArMember__owner": owner,
+                             "_ArMember__group": group, "_ArMember__fmode": fmode, "_ArMember__size": size,
+                             "_ArMember__fname": fname, "_ArMember__fp": VOpt(ex.truth(fpnone), VPy("<fp>")),
+                             "_ArMember__offset": off, "_ArMember__end": end, "_ArMember__cur": cur}, "spec-member")
+
+
 def build_world():
     sl = SpecLib()
     w = World(sl)
@@ -269,6 +504,35 @@ def build_world():
     w.spec_func(bio_readlines_step)
     w.spec_func(bio_readlines, rec=dict(args=["view:bytes", "int"], ret=("list", "bytes")))
     w.spec_env["first_at"] = VFunc("builtin", "first_at", fn=_first_at_sym)
+    w.spec_func(hdr_name)
+    from vf.pyvc import values as _vals
+    from vf.pyvc.speclib import F_ISINT
+    _vals.REC_CLASSES["ArMember"] = MEMBER_FIELDS
+    REC = ("rec", "ArMember")
+    w.spec_env["mk_member"] = VFunc("builtin", "mk_member", fn=_mk_member)
+    w.spec_env["is_int"] = VFunc("builtin", "is_int", fn=lambda ex, a, kw: VBool(F_ISINT(a[0].t)))
+    w.spec_env["no_members"] = VFunc("builtin", "no_members",
+                                     fn=lambda ex, a, kw: VSeq("list", REC, z3.Empty(sort_of(("list", REC)))))
+    w.spec_env["no_members_dict"] = VFunc("builtin", "no_members_dict",
+                                          fn=lambda ex, a, kw: _vals.VBox("dict", _vals.empty_dict("str", REC), "empty"))
+
+    def _dict_store(ex, a, kw):
+        d, k, v = a
+        box = _vals.VBox("dict", d.val if isinstance(d, _vals.VBox) else d, "tmp")
+        sl.dict_set(ex, box, k, v)
+        return box
+    w.spec_env["dict_store"] = VFunc("builtin", "dict_store", fn=_dict_store)
+    w.spec_env["GLOBAL_HEADER"] = _vals.lift(w.module(MOD).real().GLOBAL_HEADER)
+    for f in (member_at, hdr_ok, hdr_pos_step, ar_wf_step, members_spec_step, dict_spec_step):
+        w.spec_func(f)
+    w.spec_func(hdr_pos, rec=dict(args=["bytes", "int"], ret="int"))
+    w.spec_func(ar_wf, rec=dict(args=["bytes", "int", "int"], ret="bool"))
+    w.spec_func(members_spec, rec=dict(args=["bytes", "int", "opt:str", "str", "str"], ret=("list", REC)))
+    w.spec_func(dict_spec, rec=dict(args=["bytes", "int", "opt:str", "str", "str"], ret=("dict", "str", REC)))
+    w.spec_env["fs_encoding"] = VFunc("builtin", "fs_encoding",
+                                      fn=lambda ex, a, kw: VSeq("str", "int", z3.Const("fs_encoding", SeqI)))
+    from vf.pyvc.values import lift
+    w.spec_env["FILE_MAGIC"] = lift(w.module(MOD).real().FILE_MAGIC)
     return w
 
 
@@ -279,6 +543,12 @@ def contracts():
     cs += variants(Readline)
     cs += variants(Seek)
     cs += variants(Readlines)
+    for wf in (False, True):
+        for base in (FromFile, FromFileIdentity):
+            c = base(wf)
+            c.__class__ = type("%s_%s" % (base.__name__, "fname" if wf else "nofname"), (base,), {})
+            cs.append(c)
+    cs += [CollectMembers(), GetMember(), GetMemberMissing(), GetMembers()]
     return cs
 
 
@@ -357,10 +627,15 @@ def run(ctx):
     w = build_world()
     cs = contracts()
     for c in cs:
-        w.add_contract(c)
+        if not isinstance(c, (FromFile, CollectMembers, GetMember, GetMemberMissing, GetMembers)):
+            w.add_contract(c)
+    caller_view = FromFile(True)
+    caller_view.modular = True
+    w.add_contract(caller_view)
+    w.module(MOD)
     # one contract object per (function, mode); World keeps the last registered per function for
     # modular calls, verification iterates over all variants
-    reps = {c.qualname: replay_member for c in cs}
+    reps = {c.qualname: replay_member for c in cs if isinstance(c, MemberContract)}
     verify_contracts(ctx, w, cs, reps)
     ctx.solve()
     ev, nt, samples = bounded_arfile(ctx)
